@@ -27,7 +27,11 @@ REGISTRY = {
             'not the target occurs); the block returns a number iff every reached field resolves, an unresolvable reached field always '
             'raises, every error is the error of a reached field or of a named stage (fastMass_error_cases); the reached list is tied to '
             '/repo by comparing it with the recorded mod_mass calls of the real mass and the predicted accept/reject decision with the '
-            'real outcome (mass_resolver_dispatch)',
+            'real outcome (mass_resolver_dispatch). Props/C09Ion (3 theorems): parse_ion_elements (the sub-parser of every charge-adduct ion; '
+            'Model/C09Ion.lean, structural recursions) returns a value or raises ValueError for EVERY text and element table '
+            '(parseIon_total; TypeError before fix e1f2554 is a checked counter-example) and an accepted symbol is e or a table key '
+            '(parseIon_symbol_known); tied by correspondence parse_ion_elements (grammar-built ions over the real table, every string of '
+            '<=3 / <=4 tokens of a 22-token alphabet, random and mutated strings)',
     'note': 'trusted: Lean kernel, axioms propext/Classical.choice/Quot.sound, the correspondence harness; non-ASCII text and CPython\'s '
             '4300-digit int limit are outside the model; deferred-validation clause: Lean theorems only for the fast path of mass (no isotope '
             'label in force) with the resolver mod_mass and parse_static_mods as parameters; comp / the label path / mz and the resolver '
@@ -271,6 +275,72 @@ def dispatch_stage(chk, quick):
                    nontrivial_fn=lambda c, im: len(im) > 8 and 'ERR' in im)
 
 
+# ----------------------------------------------------------------------------- parse_ion_elements (extension, round 5, goal (b))
+
+ION_TOKENS = ['+', '-', '1', '2', '0', '_', ' ', '\t', '\x1c', 'H', 'Na', 'e', 'Mg', 'D', '13C', 'X', 'Foo', ',', '.', '[', 'n', '\x00']
+
+
+def ion_stage(chk, quick):
+    """Model/C09Ion.lean against the real `parse_ion_elements`: grammar-built (mostly valid) ions over the real element
+    table, every string of <= 3 (quick) / <= 4 (thorough) tokens of ION_TOKENS, random longer token strings, and
+    single-character mutations of valid ions. Oracle part: only ValueError may come out."""
+    from peptacular.proforma import proforma_parser as pp
+    from peptacular.constants import ISOTOPIC_ATOMIC_MASSES
+    rng = chk.rng
+    keys = list(ISOTOPIC_ATOMIC_MASSES)
+    if not all(k.isascii() and ',' not in k for k in keys):
+        raise core.InfraError('element table keys are not plain ASCII')
+    keyarg = ','.join(esc(k) for k in keys)
+    valid = []
+    for _ in range(1500 if quick else 20000):
+        sym = rng.choice(keys + ['e', 'e', 'H', 'Na', 'K'])
+        cnt = rng.choice(['', '', '', '2', '3', '10', '01', '0'])
+        sg = rng.choice(['+', '+', '-', '', '+-', '-+'])
+        ch = rng.choice(['+', '+', '-', '2+', '2-', '+2', '', '1_0+', ' 2+', '+ 2 ', '02-', '+-', '10+'])
+        valid.append(sg + cnt + sym + ch)
+    exhaustive = ['']
+    for n in range(1, (3 if quick else 4) + 1):
+        exhaustive += [''.join(t) for t in itertools.product(ION_TOKENS, repeat=n)]
+    rnd = [''.join(rng.choice(ION_TOKENS) for _ in range(rng.randint(4, 9))) for _ in range(3000 if quick else 60000)]
+    muts = []
+    for v in valid[:: 2]:
+        i = rng.randint(0, len(v))
+        t = rng.choice(ION_TOKENS)
+        muts.append(rng.choice([v[:i] + t + v[i:], v[:i] + v[i + 1:], v[:i] + t + v[i + 1:], v[:i] + v[i:i + 1] * 2 + v[i + 1:]]))
+    cases = valid + exhaustive + rnd + muts
+    chk.count('ion strings: grammar-built', len(valid))
+    chk.count('ion strings: exhaustive', len(exhaustive))
+    chk.count('ion strings: random + mutated', len(rnd) + len(muts))
+
+    def impl(t):
+        try:
+            cnt, sym, ch = pp.parse_ion_elements(t)
+        except Exception as e:  # noqa
+            r = 'ERR:' + L.err_name(e)
+            chk.count('ion outcome ' + r)
+            return r
+        chk.count('ion outcome ok')
+        if type(cnt) is not int or type(ch) is not int or type(sym) is not str:
+            return 'TYPES:%r' % ((cnt, sym, ch),)
+        return 'I%d,%s,%d' % (cnt, esc(sym), ch)
+
+    chk.correspond('parse_ion_elements', DRV, cases, lambda t: 'ion\t1\t%s\t%s' % (esc(t), keyarg), impl,
+                   nontrivial_fn=lambda t, im: im.startswith('I') and len(t) > 2)
+
+    def o_ion(t):
+        try:
+            cnt, sym, ch = pp.parse_ion_elements(t)
+        except ValueError:
+            return None
+        except Exception as e:  # noqa
+            return 'parse_ion_elements(%r) raises %s: %s (not a ValueError)' % (t, type(e).__name__, e)
+        if sym != 'e' and sym not in ISOTOPIC_ATOMIC_MASSES:
+            return 'parse_ion_elements(%r) accepts the unknown element symbol %r' % (t, sym)
+        return None
+
+    chk.oracle('parse_ion_elements_total', cases, o_ion, nontrivial_fn=lambda t: len(t) > 2)
+
+
 # ----------------------------------------------------------------------------- run
 
 def run(chk):
@@ -279,12 +349,14 @@ def run(chk):
     tier = chk.tier
     rng = chk.rng
     quick = tier == 'quick'
-    chk.lean_build(['PeptVerif.Props.C09', 'PeptVerif.Props.C09Ext'], DRV)
+    chk.lean_build(['PeptVerif.Props.C09', 'PeptVerif.Props.C09Ext', 'PeptVerif.Props.C09Ion'], DRV)
     chk.trusted += [
         'modelled: _ProFormaParser (all phases, cursor, chain loop), _is_unmodified, parse, convert_type on ASCII, the serializer; '
         'Python exception classes are values of Err (ProFormaFormatError, ValueError, IndexError, TypeError, ...); '
         'modelled (extension): which modification fields the fast path of mass hands to mod_mass, in call order (Dispatch.reachedPlaced, '
         'Dispatch.reachedStatic; correspondence mass_resolver_dispatch records the real calls); '
+        'parse_ion_elements with _pop_ion_count / _pop_ion_symbol / _pop_ion_charge and int() on sign-free ASCII text (Model/C09Ion.lean; the '
+        'element table is a parameter, the driver is given the real keys); '
         'not modelled: mod_mass / mod_comp / parse_static_mods / parse_isotope_mods themselves (parameters of the theorems; oracle-only), '
         'is_sequence_valid (oracle: True iff parse accepts), non-ASCII input, the 4300-digit int limit',
     ]
@@ -798,6 +870,7 @@ def run(chk):
     chk.oracle('deferred_validation_after_valid_calls', hs_cases, o_params, key_fn=lambda c: c[1] + repr(c[3]))
 
     dispatch_stage(chk, quick)
+    ion_stage(chk, quick)
 
     chk.rule = (f'exhaustive: every string of <= {depth} tokens over the {len(L.TOKENS)}-token notation alphabet '
                 '(residues P,E; all bracket kinds; ? - + / ^ @ # | : , . ; digits 1,0; the name Oxidation; backslash; space); random strings '
@@ -808,6 +881,7 @@ def run(chk):
                 'modification or several chains (exhaustive), longer than 3 characters (oracle)')
     if not quick:
         chk.leanchecker(['PeptVerif.Props.C09Ext', 'PeptVerif.Lemmas.C09Dispatch', 'PeptVerif.Model.C09Dispatch',
+                         'PeptVerif.Props.C09Ion', 'PeptVerif.Model.C09Ion',
                          'PeptVerif.Props.C09', 'PeptVerif.Lemmas.ParserTotal', 'PeptVerif.Model.Serialize', 'PeptVerif.Model.Parser',
                          'PeptVerif.Model.ModText'])
     return chk.finish(classify)
